@@ -156,7 +156,7 @@ Fixpoint wake (fuel : nat) (w : waker) (H : heap) : heap :=
     | Some w' =>
       (* the fuel only bounds how far UP the chain of hosts the wake is followed; what the waker does to its own
          command (enqueue, mark woken) does not depend on it.  A chain deeper than the fuel leaves the remaining
-         hosts registered and un-woken (never reached: WF is far above any nesting depth) *)
+         hosts registered and un-woken (never reached when wakes start with [wfuel]: see below) *)
       match fuel with
       | 0 => H2
       | S f => wake f w' (ucmd c (set_atomic None) H2)
@@ -164,12 +164,15 @@ Fixpoint wake (fuel : nat) (w : waker) (H : heap) : heap :=
     | None => note B_AtomicEmpty H2
     end
   end.
-Definition WF := 64.   (* nesting depth bound for one wake chain; far above what generated programs reach *)
+(* the fuel a wake starts with: a command is created after the command of the task that hosts it, so the ids along a
+   chain of hosts strictly decrease and [S c] steps are enough to follow the whole chain above command c
+   (EvictHost.wake_fuel_suffices, under the order invariants); there is no bound on the nesting depth in the model *)
+Definition wfuel (w : waker) : nat := match w with WCmd c _ _ => S c | WExec _ => 0 end.
 
 (* ---------- futures mpsc::unbounded ---------- *)
 Definition wake_cell (ch : nat) (H : heap) : heap :=
   match ch_wk (gch ch H) with
-  | Some w => wake WF w (uch ch (fun c => mkChan (ch_buf c) (ch_tx c) (ch_rx c) None) H)
+  | Some w => wake (wfuel w) w (uch ch (fun c => mkChan (ch_buf c) (ch_tx c) (ch_rx c) None) H)
   | None => H
   end.
 Definition chan_send (ch v : nat) (H : heap) : bool * heap :=
@@ -369,7 +372,7 @@ Definition poll_body (F : rtfuns) (c : nat) (w : waker) (fs : fstate) (H : heap)
   | LYield n k =>
     match n with
     | 0 => go (LRun k) H
-    | S m => Some (Pend (mkF en (LYield m k) st), wake WF w H)
+    | S m => Some (Pend (mkF en (LYield m k) st), wake (wfuel w) w H)
     end
   | LLeg sent tg v ch x k =>
     (* legacy ShellRequest::poll: send on the first poll (straight to the core's channel), then take the
@@ -454,7 +457,7 @@ Definition finish_task (cid s : nat) (t : trec) (H2 : heap) : heap :=
   let H4 := ucmd cid (slab_remove s) H2 in
   let ws := tf_joinw (gtf (t_uid t) H4) in
   let H5 := utf (t_uid t) (fun tf => mkTF true (tf_abort tf) (tf_alive tf) []) H4 in
-  let H6 := fold_left (fun Hh wk => wake WF wk Hh) ws H5 in
+  let H6 := fold_left (fun Hh wk => wake (wfuel wk) wk Hh) ws H5 in
   kill_flag (t_uid t) (drop_fs DF (t_fs t) H6).
 Definition drain_body (F : rtfuns) (cid : nat) (H : heap) : option heap :=
   match c_ready (gcmd cid H) with
